@@ -78,7 +78,8 @@ class View:
         self.segs = []
         cur = None
         counts = {}
-        rc_on = cfg.get("result_classifier", True) and not cfg.get("no_retry")
+        self.no_retry = bool(cfg.get("no_retry")) and rec.entry.lstrip("a").startswith("policy.")
+        rc_on = cfg.get("result_classifier", True) and not self.no_retry
         for ev in tr:
             if ev[0] == "op":
                 s = Seg()
@@ -103,8 +104,6 @@ class View:
                     s.cause = "exception"
                 elif k == "res":
                     s.cause = "result"
-                if cfg.get("no_retry") and k == "exc":
-                    pass
                 s.events = []
                 s.polls = []
                 s.strategies = []
